@@ -33,6 +33,15 @@ type c03Step struct {
 	On     bool       `json:"on"`
 	Ver    int        `json:"ver"`
 	Jk     string     `json:"jk"`
+	Err    bool       `json:"err"`
+	Vals   []uint64   `json:"vals"`
+	Acct   *c03Answer `json:"acct"`
+}
+
+// c03Answer is an answer of the accounts provider: the active validators, or an error.
+type c03Answer struct {
+	Err  bool     `json:"err"`
+	Vals []uint64 `json:"vals"`
 }
 
 type c03Scenario struct {
@@ -132,9 +141,16 @@ func TestVerifC03(t *testing.T) {
 		for _, st := range sc.Steps {
 			switch st.Ev {
 			case "Reset":
+				// ONE controller instance per history (restarts of the scenario aside): every later step acts on it
 				h = c03NewHarness(*st.Cfg, *st.Oracle)
+				h.Watchdog = true
 				h.ChainTime.SetSlot(st.Now)
-				emit(verifsupport.Ev{"ev": "Reset", "cfg": st.Cfg, "oracle": st.Oracle, "now": st.Now})
+				acct := c03Answer{Vals: append([]uint64{}, st.Cfg.Vals...)}
+				if st.Acct != nil {
+					acct = c03Answer{Err: st.Acct.Err, Vals: append([]uint64{}, st.Acct.Vals...)}
+					h.SetAccounts(acct.Vals, acct.Err)
+				}
+				emit(verifsupport.Ev{"ev": "Reset", "cfg": st.Cfg, "oracle": st.Oracle, "now": st.Now, "acct": acct})
 			case "Start":
 				check(h.Start(h.Now(), st.W))
 				emit(verifsupport.Ev{"ev": "Start", "w": st.W, "periodic": h.Periodic()})
@@ -165,6 +181,9 @@ func TestVerifC03(t *testing.T) {
 				ok, err := h.FireJob(c03JobName(st.K, st.N))
 				check(err)
 				emit(verifsupport.Ev{"ev": "Fire", "k": st.K, "n": st.N, "h": st.H, "fired": ok})
+			case "Accounts":
+				h.SetAccounts(st.Vals, st.Err)
+				emit(verifsupport.Ev{"ev": "Accounts", "err": st.Err, "vals": append([]uint64{}, st.Vals...)})
 			case "Hold":
 				h.Hold(st.K, st.On)
 				emit(verifsupport.Ev{"ev": "Hold", "k": st.K, "on": st.On})
@@ -174,6 +193,10 @@ func TestVerifC03(t *testing.T) {
 				emit(verifsupport.Ev{"ev": "Release", "k": st.K, "n": st.N, "ver": st.Ver, "jk": st.Jk, "released": ok})
 			default:
 				t.Fatalf("unknown step %q", st.Ev)
+			}
+			// a call that never ends: an event no action of the specification allows
+			if hung := h.TakeHung(); len(hung) > 0 {
+				emit(verifsupport.Ev{"ev": "Hung", "after": st.Ev, "what": hung})
 			}
 		}
 	}
